@@ -17,7 +17,8 @@ PROP = {
                    "sequence, no size_t subtraction wraps, no MOMO_ASSERT fails, every loop terminates. The model is executable and is "
                    "compared cell by cell with the real code on every run (exact arrangement after Sort through item ids, the exact sequence of iterSwapper calls through a logging swapper, exact indices "
                    "returned by Find/GetBounds, pvMultShift/pvGetStepCount at function level); thresholds and radix constants are "
-                   "re-extracted from the headers."),
+                   "re-extracted from the headers."
+                   " HashSorter::pvGetStepCount is additionally TRANSLATED from the header text on every run (tools/translate.py) and proved equal to the model's stepCount (C17_stepCount_translated)."),
     "level_note": ("Trusted: Lean kernel, the three standard axioms, extractor, correspondence harness (g++, -fno-access-control, ASan/UBSan). "
                    "Modelled, not verified: iterators as (view, offset) pairs, std::reverse_iterator arithmetic, std::iter_swap / std::swap as "
                    "an exchange of two cells, std::min_element as 'first smallest', std::array bounds; sizes are unbounded naturals (index "
@@ -39,6 +40,7 @@ PROP = {
         "Momo.Sort.C17_bounds_prehashed",
         "Momo.Sort.C17_isSorted_plain",
         "Momo.Sort.C17_isSorted_prehashed",
+        "Momo.Sort.C17_stepCount_translated",
     ],
     "harnesses": [
         {"name": "c17_sort", "src": "c17_sort.cpp", "sanitize": "asan"},
